@@ -432,6 +432,26 @@ theorem pfilter_spec (pat : Option String) (evs : List (Nat × String)) (e : Nat
 theorem pfilter_sublist (pat : Option String) (evs : List (Nat × String)) :
     (processingFilter pat evs).Sublist evs := List.filter_sublist
 
+/-! ### recombine_cpu_events -/
+
+/-- **`recombine_cpu_events` is a per-event map that changes nothing but the tid**, and only of FLEX host slices -/
+theorem recombine_only_tid (cpuTid : Int) (e : REv) :
+    (recombine cpuTid e).uid = e.uid ∧ (recombine cpuTid e).pid = e.pid ∧ (recombine cpuTid e).name = e.name ∧
+    (recombine cpuTid e).ph = e.ph ∧ (recombined e = false → recombine cpuTid e = e) ∧
+    (recombined e = true → (recombine cpuTid e).tid = some cpuTid) := by
+  unfold recombine
+  split <;> simp_all
+
+/-- device events (those with `args.TS1`) keep their lane: what the overlap resolution and C04 see of them is
+what `map_tid_to_range` left -/
+theorem recombine_device_untouched (cpuTid : Int) (e : REv) (h : e.hasTS1 = true) : recombine cpuTid e = e := by
+  have : recombined e = false := by simp [recombined, h]
+  exact (recombine_only_tid cpuTid e).2.2.2.2.1 this
+
+theorem recombine_pass (cpuTid : Int) (es : List REv) :
+    (es.map (recombine cpuTid)).map (·.uid) = es.map (·.uid) := by
+  simp [List.map_map, Function.comp_def, (recombine_only_tid cpuTid _).1]
+
 /-! ### non-vacuity -/
 
 /-- 32 distinct tids on a 30-slot table: the table is continued, the two extra tids get 4000 and 4100 -/
